@@ -842,6 +842,18 @@ class EpiSim(object):
                 AbstractContract.now = core.parse_t(op["t"])
                 self.fault("foreign_clock_write")
                 self.sink.records.append({"seq": self.sink.next_seq(), "kind": "clock", "t": core.parse_t(op["t"])})
+            elif name == "peek":
+                # a monitoring caller reads the public accessors of the running episode between two steps: the track
+                # record's series and tables, weights, the exchange's repr.  Reading is not an operation: nothing may change
+                h = self.handles[op.get("env", 0)]
+                tr = h.env.broker.track_record
+                for read in (tr.net_liquidation_value, tr.transaction_costs, tr.weights_target,
+                             lambda: tr.net_liquidation_value(before_rebalancing=False), lambda: repr(h.env.exchange), lambda: len(tr)):
+                    try:
+                        read()
+                    except Exception:
+                        pass
+                self.fault("accessors_read_between_steps")
             elif name == "notify_quote":
                 # a live quote pushed into the environment between two steps (TradingEnv.notify), stamped with the very
                 # same timestamp as the last quote the exchange has seen
